@@ -142,7 +142,7 @@ func (c *Ctx) altCond(f *FA, x *bvCtx, a valAlt) string {
 		if iff, ok := a.blk.Instrs[len(a.blk.Instrs)-1].(*ssa.If); ok && a.blk.Succs[0] != a.blk.Succs[1] {
 			if _, _, dec := c.condKnown(iff.Cond); !dec {
 				taken := a.blk.Succs[0] == a.to
-				if tok := moreLastToken(f.Fn, a.blk, iff, taken); tok != "" {
+				if tok := moreLastTokenF(f, f.Fn, a.blk, iff, taken); tok != "" {
 					parts = append(parts, tok)
 				} else {
 					parts = append(parts, c.condText(f, x, iff.Cond, taken))
